@@ -36,6 +36,7 @@ pub fn md_route(r: &Value) -> TemporalResult<PlainMonthDay> {
         "date" => arg_date(&r["d"])?.to_plain_month_day(),
         "new" => PlainMonthDay::new_with_overflow(js::i(r, "m") as u8, js::i(r, "d") as u8, iso(), r_ovf(r), r.get("ry").and_then(|x| x.as_i64()).map(|x| x as i32)),
         "default" => Ok(PlainMonthDay::default()),
+        "partial" => iso().month_day_from_partial(&partial_date(&r["p"])?, r_ovf(r)),
         k => panic!("month-day route {}", k),
     }
 }
